@@ -8,6 +8,8 @@ mod c13;
 mod c03;
 mod c02;
 mod c01;
+mod c17;
+mod c18;
 mod inputs;
 
 #[path = "/repo/harper-ls/src/git_commit_parser.rs"]
@@ -26,6 +28,8 @@ fn main() {
         "c03" => c03::main(&a),
         "c02" => c02::main(&a),
         "c01" => c01::main(&a),
+        "c17" => c17::main(&a),
+        "c18" => c18::main(&a),
         other => {
             eprintln!("unknown subcommand {other}");
             std::process::exit(2);
